@@ -39,6 +39,12 @@ CONDITIONAL_PANIC_CALLEES = {
     "alloc::string::String::remove": "string_remove",
     "core::slice::<impl [T]>::split_at": "split_at",
     "core::str::<impl str>::split_at": "split_at",
+    # operator traits on primitive integers with a reference operand (libcore routines with the crate's overflow checks)
+    "core::ops::arith::Add::add": "arith-call",
+    "core::ops::arith::Sub::sub": "arith-call",
+    "core::ops::arith::Mul::mul": "arith-call",
+    "core::ops::bit::Shl::shl": "arith-call",
+    "core::ops::bit::Shr::shr": "arith-call",
 }
 
 
@@ -150,7 +156,12 @@ def enumerate_sites(p, fns, include_log=True):
                 elif d in CONDITIONAL_PANIC_CALLEES:
                     # only foreign implementations (local Index impls are interpreted)
                     if (t["f"].get("res") or d) not in p.bodies:
-                        site = (CONDITIONAL_PANIC_CALLEES[d], t["f"].get("defargs", "")[:80])
+                        if CONDITIONAL_PANIC_CALLEES[d] == "arith-call":
+                            from .externs import _ARITH_RES
+                            if _ARITH_RES.match(t["f"].get("res") or ""):
+                                site = ("arith-call", (t["f"].get("res") or "")[:80])
+                        else:
+                            site = (CONDITIONAL_PANIC_CALLEES[d], t["f"].get("defargs", "")[:80])
             if site is None:
                 continue
             base = "%s/%s/%s" % (froot, site[0], site[1])
@@ -171,3 +182,69 @@ def failing_sites(I):
         elif e.kind == "panic":
             bad.setdefault((e.body, e.bb), []).append(e)
     return bad
+
+
+# std routines that panic when an argument breaks their documented contract (an index beyond the length, a byte offset inside
+# a character, a zero step).  The interpreter has no model for them and would take them as total: a call to one of them from
+# analysed code is therefore an obligation of its own, discharged only by what the call site shows about the argument.
+CONTRACT_APIS = (
+    ("alloc::string::String::truncate", "new length must lie on a character boundary"),
+    ("alloc::string::String::insert", "index must lie on a character boundary"),
+    ("alloc::string::String::insert_str", "index must lie on a character boundary"),
+    ("alloc::string::String::remove", "index must lie on a character boundary inside the string"),
+    ("alloc::string::String::split_off", "index must lie on a character boundary"),
+    ("alloc::string::String::drain", "range must lie on character boundaries"),
+    ("alloc::string::String::replace_range", "range must lie on character boundaries"),
+    ("split_at", "index must lie inside (on a character boundary of) the slice"),
+    ("alloc::vec::Vec::<T, A>::remove", "index must be below the length"),
+    ("alloc::vec::Vec::<T, A>::insert", "index must not exceed the length"),
+    ("alloc::vec::Vec::<T, A>::swap_remove", "index must be below the length"),
+    ("alloc::vec::Vec::<T, A>::split_off", "index must not exceed the length"),
+    ("alloc::vec::Vec::<T, A>::drain", "range must lie inside the vector"),
+    ("copy_from_slice", "both slices must have the same length"),
+    ("clone_from_slice", "both slices must have the same length"),
+    ("::step_by", "step must not be zero"),
+    ("::chunks", "chunk size must not be zero"),
+    ("::windows", "window size must not be zero"),
+    ("core::cell::RefCell::<T>::borrow", "must not be mutably borrowed"),
+)
+
+
+def contract_calls(p, fns):
+    """-> [{fn, api, rule, k, ln, ok, why}] calls from the given functions to std routines with a panic contract"""
+    from . import mirutil
+    out = []
+    for fn in sorted(set(fns)):
+        b = p.bodies.get(fn)
+        if b is None:
+            continue
+        seen = {}
+        for bb, t in mirutil.calls_in(b):
+            d = mirutil.callee_def(t) or ""
+            if d.startswith(("L::", "B::")):
+                continue
+            hit = None
+            for api, rule in CONTRACT_APIS:
+                if (d == api) or (not api.startswith(("alloc::", "core::")) and d.endswith(api)) or \
+                        (api.startswith("::") and api in d and d.split("::")[0] in ("core", "alloc", "std")):
+                    hit = (api, rule)
+                    break
+            if hit is None:
+                continue
+            k = seen.get(d, 0)
+            seen[d] = k + 1
+            ok, why = False, "the argument is not analysed"
+            # the whole-range forms cannot fail
+            argtys = []
+            for a in t.get("args", []):
+                pl = mirutil.place_of(a)
+                if pl is not None and not pl["p"]:
+                    argtys.append(b.locals[pl["l"]]["ty"])
+                else:
+                    ck = a.get("k") if isinstance(a, dict) else None
+                    argtys.append(str(a.get("ty", "")) if isinstance(a, dict) else "")
+            if d.endswith("::drain") and any("RangeFull" in str(ty) for ty in argtys):
+                ok, why = True, "drains the full range `..`"
+            out.append({"fn": fn, "api": d, "rule": hit[1], "k": k, "ln": t.get("ln") or b.line, "ok": ok, "why": why,
+                        "argtys": argtys})
+    return out
